@@ -37,6 +37,11 @@ ZERO_DEFS = {"def:0", "def:false", 'def:""', "def:nil", "def:0.0"}
 def norm_leaf(item, types):
     """what reflection cannot tell apart: a default that IS the zero value; which bool sentinel a true came from"""
     path, _, val = item.partition("=")
+    if val.startswith("def:") and "{" in val:
+        # a composite default is read back through its first element: the sentinel inside
+        mm = re.search(r'(2\d\d|"d\d+")', val)
+        if mm:
+            val = "def:" + mm.group(1)
     if val in ZERO_DEFS:
         val = "zero"
     if types.get(path) == "bool" and (val.startswith("arg") or val == "dirty" or val == "def:true"):
@@ -73,10 +78,12 @@ def gen_specs(ctx):
     out.append(S([F("port", **{"def": "208"}), E("Base", [F("port"), F("host", "string")])]))
     out.append(S([F("id"), E("Base", [F("age"), F("id")], ptr=True)]))
     out.append(S([F("id", "K"), F("v", "int", **{"def": "201"})], [(["K"], "comparable")]))
+    out.append(S([F("hosts", "[]string", **{"def": '[]string{"d3"}'}), F("labels", "map[string]int", **{"def": 'map[string]int{"k": 204}'}),
+                  F("in", "*Inner", **{"def": "&Inner{N: 205}"}), F("n", "int", **{"def": "206"})]))
     out.append(S([F("retries", **{"def": "0"}), F("verbose", "bool", **{"def": "false"}), F("prefix", "string", **{"def": '""'}), F("n", "int")]))
     n = ctx.n(160, 1500)
     for _ in range(n):
-        out.append(g.top("T", **{"def": 0.5, "maxfields": 4, "generic": 0.06}))
+        out.append(g.top("T", **{"def": 0.5, "maxfields": 4, "generic": 0.06, "refdefs": 0.6}))
     return out
 
 
@@ -103,8 +110,16 @@ def run(ctx, obl):
                   '\tvo.ObserveOpts(func(k, v string) { emit("nw:"+k, v) }, fns, shoot.NewWith[%s, *%s], func() any { return new(%s) }, false, seqs)\n'
                   '\tvo.ObserveOpts(func(k, v string) { emit("w:"+k, v) }, fns, nil, func() any { return new(%s) }, true, seqs)\n'
                   '}\n' % (fns, seqlit, inst, inst, inst, inst))
-        args = ["new", "-opt"] + (["-short"] if shorts[i] else []) + ["-type=" + s["name"]]
-        pc = {"id": "o%d" % i, "files": {"t.go": newgen.render_file("cs", [s])}, "runs": [{"args": args}], "oracle": {".": oracle}}
+        # multi-type run (30%): companion types first (a generic one with marks, defaults and restrictions on fields named
+        # like T's); with -getset as well when that cannot collide with anything in T (the accessors force a package reload)
+        cdecls, cnames, gs = [], [], []
+        if i >= 6 and ctx.rng.random() < 0.3:
+            cdecls, cnames = newgen.companion(ctx.rng, s, "o%d" % i, same_names=not shorts[i])
+            if newgen.getset_neutral(s) and ctx.rng.random() < 0.6:
+                gs = ["-getset"]
+            res.hist("multi_type", "companion" + ("+getset" if gs else ""))
+        args = ["new", "-opt"] + gs + (["-short"] if shorts[i] else []) + ["-type=" + ",".join(cnames + [s["name"]])]
+        pc = {"id": "o%d" % i, "files": {"t.go": newgen.render_file("cs", cdecls + [s])}, "runs": [{"args": args}], "oracle": {".": oracle}}
         b.add(pc)
         pcases.append(pc)
         for mode, tag in (("nw", "n"), ("with", "w")):
@@ -121,7 +136,9 @@ def run(ctx, obl):
             im["panic"] = r["obs"]["panic"]
         im["exit"] = str(r["runs"][0]["rc"])
         im["compile"] = "ok" if r["compile"] == "ok" else "error"
-        src = "\n".join(r["written"].values())
+        # a multi-type run writes one file per type: T's own
+        own = [v for k, v in sorted(r["written"].items()) if k.endswith(".%s.go" % c["spec"]["name"].lower())]
+        src = "\n".join(own if own else r["written"].values())
         im["optnames"] = " ".join(re.findall(r"^func (\w+)(?:\[[^\]]*\])?\([^)]*\) (?:shoot\.)?Option\[", src, flags=re.M))
         im["hasdefault"] = "true" if re.search(r"^func \(\w+ \*[^)]+\) SetDefault\(\)", src, flags=re.M) else "false"
         impl[c["id"]] = im
